@@ -272,6 +272,29 @@ def h_ipv6(ctx, part, pattern=0, free=(0,)):
     ctx.check('from_num is the inverse of num', isinstance(A.IPAddr6.from_num(num(b)), A.IPAddr6) and A.IPAddr6.from_num(num(b)) == a)
     ctx.check('cidr_to_netmask', A.IPAddr6.from_raw(cm).num == mask if isinstance(cm, bytes) else cm.num == mask)
     ctx.check('netmask_to_cidr', A.IPAddr6.netmask_to_cidr(A.IPAddr6.from_raw(cm) if isinstance(cm, bytes) else cm) == bits)
+  elif part == 'mixed':
+    # mixed notation on request (to_str(ipv4=True), documented for IPv4-compatible addresses): the first six groups print by the RFC 5952
+    # rules - a zero run may end right before the dotted quad -, the last 32 bits as a dotted quad; the text re-parses to an equal address
+    zero = [bool(pattern & (1 << i)) for i in range(6)]
+    groups = [0 if zero[i] else ctx.int('g%d' % i, 0x1000, 0xffff) for i in range(6)]
+    quad = [ctx.int('q%d' % i, 100, 255) for i in range(4)]         # three digits each: keeps the digit-count forks out
+    raw = []
+    for g in groups: raw += [g >> 8, g & 255]
+    from props import env
+    a = A.IPAddr6.from_raw(env.tobytes(ctx, raw + quad))
+    sx = a.to_str(ipv4=True)
+    # reference: RFC 5952 over eight groups with the last two forced non-zero (they are not part of the hex text), cut at the sixth group
+    ref8 = rfc5952(ctx, groups + [1, 1], zero + [False, False])
+    cut = len(ref8) - 3                                        # drop ":1:1"... the trailing "1:1" and keep the separator before it
+    head = ref8[:cut]
+    if all(zero[4:6]) : head = ref8[:len(ref8) - 3]           # "...::1:1" -> "...::"
+    tail = []
+    for i, q in enumerate(quad):
+      if i: tail.append(46)
+      tail += [48 + q // 100, 48 + (q // 10) % 10, 48 + q % 10]
+    ctx.check('mixed notation text', sx == t.chars(head + tail))
+    ctx.check('mixed notation re-parses equal', A.IPAddr6(sx) == a)
+    ctx.witness('mixed')
   elif part == 'cidr6':
     # textual networks "addr/bits" and "addr/netmask": the low group (the whole host part for /112, part of it for shorter prefixes) is symbolic.
     # The lenient and the strict reading of the *same text* are asked for in both orders: an answer never depends on what was parsed before.
@@ -395,6 +418,8 @@ def obligations(tier):
     v6.append(dict(part='text', pattern=p, free=tuple(nz[:2]) if not thorough else tuple(nz[:3])))
   for bits in (range(0, 129) if thorough else (0, 1, 7, 8, 9, 63, 64, 65, 96, 127, 128)):
     v6.append(dict(part='network', pattern=bits))
+  for pat in ((0b111111, 0b001111, 0b110000, 0b000000, 0b011110, 0b110011, 0b111100) + ((0b000011, 0b100001, 0b010101, 0b011000) if thorough else ())):
+    v6.append(dict(part='mixed', pattern=pat))
   for bits in ((112, 120, 104, 64, 128, 0) if thorough else (112, 120, 64)):
     for order in ('lenient_first', 'strict_first') + (('netmask',) if bits in (112, 64) else ()): v6.append(dict(part='cidr6', pattern=bits, free=order))
   BOUNDS[tier] = dict(ipv4="all 2^32 addresses, all 33 prefix lengths (symbolic), all 2^32 netmasks", ethernet="all 2^48 addresses; text forms xx:xx, xx-xx, 12 digits, upper case, short groups",
@@ -404,7 +429,7 @@ def obligations(tier):
   return [
     Obligation('O1_ipv4', h_ipv4, v4, witnesses=('net', 'contiguous', 'rejected', 'parsed'), max_decisions=20000, desc='IPAddr numeric/text/compare/network/CIDR/netmask/inference'),
     Obligation('O2_eth', h_eth, eth, max_decisions=20000, desc='EthAddr raw/text forms/compare/flags/malformed'),
-    Obligation('O3_ipv6', h_ipv6, v6, width=160, witnesses=('text', 'cidr6-network', 'cidr6-host-bits'), max_decisions=20000, desc='IPAddr6 raw/RFC 5952 text/membership/masks/CIDR text (lenient and strict, both orders)/malformed'),
+    Obligation('O3_ipv6', h_ipv6, v6, width=160, witnesses=('text', 'mixed', 'cidr6-network', 'cidr6-host-bits'), max_decisions=20000, desc='IPAddr6 raw/RFC 5952 text/membership/masks/CIDR text (lenient and strict, both orders)/malformed'),
     Obligation('O5_forms', h_forms, [dict(typ=t, form=f) for t in ('eth', 'ip4', 'ip6') for f in ('bytearray', 'bytearray_raw_kw', 'bytearray_raw_true', 'list', 'tuple', 'copy')
                                      if not (t != 'eth' and f in ('list', 'tuple')) and not (t != 'ip6' and f.startswith('bytearray_raw'))], witnesses=('done',), max_decisions=20000, conc_cap=600,
                desc='binary input forms (bytearray / list / tuple / copy): equality, hash, text, immutable raw value, independence from the source buffer'),
